@@ -19,7 +19,7 @@ RULE = ("operation histories on a fresh TrieDict: every sequence of assignments 
         "with a shadow dict. A case is one history; non-trivial = at least one key overwritten, or the empty key, or a None value, "
         "or one key a proper prefix of another; distinct = distinct history.")
 ASSUMPTIONS = ["Python dict keyed by tuple(tokens) is the reference mapping", "single-threaded; TrieDict root reached through name mangling (_TrieDict__root)"]
-FLOORS = ["key-longer-than-the-recursion-limit", "first-insert", "overwrite", "empty-key", "none-value", "prefix-then-longer", "longer-then-prefix", "invariant-walks", "lmpv-strict-prefix-hit", "getitem-keyerror"]
+FLOORS = ["key-longer-than-the-recursion-limit", "list-key-mutated-after-assignment", "first-insert", "overwrite", "empty-key", "none-value", "prefix-then-longer", "longer-then-prefix", "invariant-walks", "lmpv-strict-prefix-hit", "getitem-keyerror"]
 PROBE_FLOORS = ["TrieDict.__setitem__"]
 
 SENT = object()
@@ -107,8 +107,14 @@ def check_history(ctx, TrieDict, history, queries, keyform=None):
             if v is None:
                 ctx.count("none-value")
                 nontrivial = True
-            t[kf(k)] = v
+            ko = kf(k)
+            t[ko] = v
             shadow[k] = v
+            if isinstance(ko, list):
+                # the caller's own list, mutated after the assignment: the mapping must have kept the key it was given, not the object
+                ko.append("mutated-by-the-caller")
+                ko[:1] = ["x"]
+                ctx.count("list-key-mutated-after-assignment")
     except Exception as e:
         ctx.viol("C10:exception:" + ctx.exc("TrieDict.__setitem__", e), {"history": history})
         return nontrivial
@@ -203,6 +209,7 @@ def run(ctx):
         if ctx.shard == 0:
             for h in DIRECTED:
                 nt = check_history(ctx, TrieDict, h, KEYS4)
+                check_history(ctx, TrieDict, h, KEYS4, keyform=list)
                 ctx.cls("directed")
                 ctx.nontrivial(("d", h))
                 ctx.sample("directed", {"history": h})
